@@ -190,4 +190,66 @@ Section PermProducts.
       apply prod2_relabel. exact Hl. }
     destruct zf; [|exact E]. rewrite (is_zero_permi D p p_perm k Hl). destruct (is_zero k); [reflexivity | exact E].
   Qed.
+
+  (* ---- vector-valued convection: the channels are permuted along with the axes ---- *)
+  Lemma map2_seq {A B} (f : nat -> A -> B) (w : list A) (d0 : A) st :
+    map2 f (seq st (length w)) w = map (fun j => f (st + j)%nat (nth j w d0)) (seq 0 (length w)).
+  Proof.
+    revert st. induction w as [|x w IH]; intros st; cbn [length seq map2 map]; [reflexivity|].
+    f_equal; [f_equal; lia|]. rewrite IH, <- seq_shift, map_map. apply map_ext. intros j. cbn [nth]. f_equal. lia.
+  Qed.
+
+  Lemma map2_axes {A B} (f : nat -> A -> B) (w : list A) (d0 : A) : length w = D ->
+    map2 f (seq 0 D) w = map (fun j => f j (nth j w d0)) (seq 0 D).
+  Proof. intros <-. rewrite (map2_seq f w d0 0). apply map_ext. intros j. reflexivity. Qed.
+
+  (* prod2 only looks at its arguments on index vectors of length D *)
+  Lemma prod2_ext_len (U U' V V' : field F) k : length k = D ->
+    (forall x, length x = D -> U x = U' x) -> (forall x, length x = D -> V x = V' x) -> P2 U V k = P2 U' V' k.
+  Proof.
+    intros Hl HU HV. rewrite !prod2_unfold. destruct (in_band Kc k); [|reflexivity]. f_equal. unfold cconv2. apply fsum_map_ext. intros m Hm.
+    apply (in_bandD D Kc _ K_nonneg) in Hm. destruct Hm as [Hlm _]. unfold msk.
+    rewrite (HU m Hlm). rewrite (HV (wrapD N (subi k m))); [reflexivity|]. unfold wrapD. rewrite map_length, subi_length; lia.
+  Qed.
+
+  (* u' is the field u seen in the permuted frame: channel i of u' at the re-labelled wavenumber is channel p_i of u *)
+  Definition permuted_frame (u u' : list (field F)) : Prop :=
+    length u = D /\ length u' = D /\ forall i x, (i < D)%nat -> length x = D -> nth i u' (fzero F) (sigma x) = nth (nth i p 0%nat) u (fzero F) x.
+
+  Lemma P2_frame u u' i j k : permuted_frame u u' -> (i < D)%nat -> (j < D)%nat -> length k = D ->
+    P2 (nth i u' (fzero F)) (nth j u' (fzero F)) (sigma k) = P2 (nth (nth i p 0%nat) u (fzero F)) (nth (nth j p 0%nat) u (fzero F)) k.
+  Proof.
+    intros (Hu & Hu' & HR) Hi Hj Hl. rewrite <- (prod2_relabel (nth i u' (fzero F)) (nth j u' (fzero F)) k Hl).
+    apply prod2_ext_len; [exact Hl | intros x Hx; apply HR; assumption | intros x Hx; apply HR; assumption].
+  Qed.
+
+  Theorem conv_mc_cons_frame (b : F) u u' i k : permuted_frame u u' -> (i < D)%nat -> length k = D ->
+    nth i (conv_mc_cons F P2 ii s D b u') (fzero F) (sigma k) = nth (nth i p 0%nat) (conv_mc_cons F P2 ii s D b u) (fzero F) k.
+  Proof.
+    intros HF Hi Hl. pose proof HF as (Hu & Hu' & HR).
+    assert (Hpi : (nth i p 0 < D)%nat) by (apply (p_lt D p p_perm); apply nth_In; rewrite (p_length D p p_perm); exact Hi).
+    unfold conv_mc_cons.
+    rewrite (nth_map_default _ u' (fzero F) (fzero F) i) by lia. rewrite (nth_map_default _ u (fzero F) (fzero F) (nth i p 0%nat)) by lia.
+    unfold fscal. f_equal. f_equal. unfold fsumf, axes.
+    rewrite (map2_axes _ u' (fzero F) Hu'), (map2_axes _ u (fzero F) Hu), !map_map.
+    rewrite <- (axes_sum_relabel (fun c => fmulp F (dc F ii s c) (P2 (nth (nth i p 0%nat) u (fzero F)) (nth c u (fzero F))) k)).
+    apply fsum_map_ext. intros j Hj. apply in_seq in Hj. unfold fmulp. rewrite (dc_relabel j k) by lia.
+    rewrite (P2_frame u u' i j k HF Hi ltac:(lia) Hl). reflexivity.
+  Qed.
+
+  Theorem conv_mc_noncons_frame (b : F) u u' i k : permuted_frame u u' -> (i < D)%nat -> length k = D ->
+    nth i (conv_mc_noncons F P2 ii s D b u') (fzero F) (sigma k) = nth (nth i p 0%nat) (conv_mc_noncons F P2 ii s D b u) (fzero F) k.
+  Proof.
+    intros HF Hi Hl. pose proof HF as (Hu & Hu' & HR).
+    assert (Hpi : (nth i p 0 < D)%nat) by (apply (p_lt D p p_perm); apply nth_In; rewrite (p_length D p p_perm); exact Hi).
+    unfold conv_mc_noncons.
+    rewrite (nth_map_default _ u' (fzero F) (fzero F) i) by lia. rewrite (nth_map_default _ u (fzero F) (fzero F) (nth i p 0%nat)) by lia.
+    unfold fscal. f_equal. unfold fsumf, axes.
+    rewrite (map2_axes _ u' (fzero F) Hu'), (map2_axes _ u (fzero F) Hu), !map_map.
+    rewrite <- (axes_sum_relabel (fun c => P2 (nth c u (fzero F)) (fmulp F (dc F ii s c) (nth (nth i p 0%nat) u (fzero F))) k)).
+    apply fsum_map_ext. intros j Hj. apply in_seq in Hj.
+    rewrite <- (prod2_relabel (nth j u' (fzero F)) (fmulp F (dc F ii s j) (nth i u' (fzero F))) k Hl).
+    apply prod2_ext_len; [exact Hl | intros x Hx; apply HR; [lia | exact Hx] |].
+    intros x Hx. unfold relabel, fmulp. rewrite (dc_relabel j x) by lia. rewrite (HR i x Hi Hx). reflexivity.
+  Qed.
 End PermProducts.
